@@ -6,7 +6,9 @@ fails with the patch and passes without it. Writes /tmp/seed_confirm.json; confi
 import json, os, re, shutil, subprocess, sys
 from concurrent.futures import ThreadPoolExecutor
 ENV = dict(os.environ, GOFLAGS='', GOPROXY='off', GOSUMDB='off', GOTOOLCHAIN='local')
-OUT = '/tmp/seed_out'
+OUT = os.environ.get('SEED_OUT', '/tmp/seed_out')
+WT = os.environ.get('SEED_WT', '/tmp/wt')
+VARIANTS = os.environ.get('SEED_VARIANTS', 'A,B').split(',')
 VERIF = os.path.dirname(os.path.dirname(os.path.abspath(__file__)))
 
 def sh(cmd, cwd, timeout=900):
@@ -21,9 +23,9 @@ def demo_result(out):
     return 'unknown'
 
 def one(prop):
-    wt = f'/tmp/wt/{prop}'
+    wt = f'{WT}/{prop}'
     res = {}
-    for v in ('A', 'B'):
+    for v in VARIANTS:
         d = f'{OUT}/{prop}/{v}'
         if not os.path.exists(f'{d}/patch.diff'):
             res[v] = {'status': 'missing'}
@@ -75,7 +77,7 @@ def one(prop):
 props = sys.argv[1:] or sorted(os.listdir(OUT))
 with ThreadPoolExecutor(max_workers=3) as ex:
     allres = dict(ex.map(one, [p for p in props if re.match(r'^C\d\d$', p)]))
-json.dump(allres, open('/tmp/seed_confirm.json', 'w'), indent=1)
+json.dump(allres, open(os.environ.get('SEED_JSON', '/tmp/seed_confirm.json'), 'w'), indent=1)
 for p, r in sorted(allres.items()):
     for v, x in sorted(r.items()):
         print(p, v, 'CONFIRMED' if x.get('confirmed') else 'NOT', {k: x.get(k) for k in ('applies', 'baseline', 'demo_with_patch', 'demo_without_patch')})
